@@ -25,11 +25,14 @@ func init() {
 			"the count read. SHAPE-2/AXIS: record i is gathered from Tri(i), Vertex k from corner Pk with x,y,z in order; the reader scatters Vertex k to " +
 			"3·i+k−1 with identity indices and the subscripts cover [0,3n) exactly once (SYM-STRIDE). NRM-1: the facet normal depends on the three corner " +
 			"normals of the same triangle and is normalised; the reader's fallback depends on the three vertices of the same record and is chosen by a test " +
-			"of all three normal components. Necessary conditions of the round trip and the size law for every n (polynomial identities in n); " +
-			"float32 rounding and the normalisation arithmetic itself are not decided.",
+			"of all three normal components whose polarity is evaluated abstractly (fallback iff Normal=(0,0,0)); stored normals are kept (flag raised on every " +
+			"stored-normal alternative); empty-list early return only under n=0. NRM-2: directions as polynomial identities up to a positive factor — facet normal ∥ " +
+			"N(P1)+N(P2)+N(P3), flat normal ∥ (V2−V1)×(V3−V1). Vertex coordinates are plain copies (no arithmetic / value-changing call between mesh and record). " +
+			"Necessary conditions of the round trip and the size law for every n (polynomial identities in n); float32 rounding and vector lengths are not decided.",
 		Assumptions: []string{
 			"encoding/binary serialises fixed-size values field by field in declaration order without padding (its documented contract)",
 			"value-receiver accessors of modeling.Mesh (PrimitiveCount, Tri, HasFloat3Attribute) are pure functions of the mesh value",
+			"vector3 Add/Sub/Cross/Scale/DivByConstant/Normalized of EliCDavis/vector v1.8.0 have their published meaning (resolved by object, modelled by table in NRM-2)",
 		},
 		Controls: controls,
 		Run:      run,
@@ -622,7 +625,7 @@ func readerResult(a *anchors, r *rep, rd *ssa.Function, e *sx.Env, rs []*step) {
 			name string
 			want func(*step) bool
 		}{
-			{hi, "Header", func(s *step) bool { return !s.slice && types.Identical(derefType(s.op.Type), a.tHeader) }},
+			{hi, "Header", func(s *step) bool { return len(rs) > 0 && s == rs[0] && !s.slice }},
 			{ti, "Triangles", func(s *step) bool { return s.slice }},
 		} {
 			sl := sx.NewSlicer(a.inline).WithEnv(e)
@@ -986,6 +989,9 @@ type leafClass struct {
 	axes     map[int]bool
 	normed   bool
 	swizzled bool
+	normCall ssa.Value
+	normCtx  *sx.Ctx
+	altered  string // first value-changing operation on the data path ("" = pure copy / conversion)
 }
 
 // classifyGather classifies what one leaf of a record stored at tris[idx] is made of.
@@ -994,6 +1000,7 @@ func classifyGather(a *anchors, e *sx.Env, m *ssa.Parameter, root ssa.Value, idx
 	sl.From(val, rest, nil)
 	lc := leafClass{corners: map[int]bool{}, attrs: map[string]bool{}, axes: sl.AxisTags()}
 	lc.swizzled = len(sl.Swizzles()) > 0
+	lc.altered = a.valueChanging(sl)
 	for _, c := range sl.Calls() {
 		if k := a.cornerOrdinal(c); k > 0 {
 			lc.corners[k] = true
@@ -1005,6 +1012,12 @@ func classifyGather(a *anchors, e *sx.Env, m *ssa.Parameter, root ssa.Value, idx
 		}
 		if sx.VecMethod(ssaCallee(c), "Normalized") {
 			lc.normed = true
+			lc.normCall = c
+			for _, vis := range sl.Visits {
+				if vis.Kind == sx.VValue && vis.V == ssa.Value(c) {
+					lc.normCtx = vis.Ctx
+				}
+			}
 		}
 		if a.isMeshMethod(c, "Tri") {
 			if c.Call.Args[0] != ssa.Value(m) {
@@ -1197,6 +1210,8 @@ func gather(a *anchors, r *rep, fn, write *ssa.Function) {
 	built := map[string]bool{}
 	normBuilt, normNormalised := false, true
 	var normPos string
+	var normCall ssa.Value
+	var normCtx *sx.Ctx
 	for _, lf := range leaves {
 		key := fmt.Sprintf("%s#Triangle.%s", name, lf.name)
 		k, isVertex := vertexField[lf.field]
@@ -1259,6 +1274,8 @@ func gather(a *anchors, r *rep, fn, write *ssa.Function) {
 					} else {
 						fail(ob.Violation, fmt.Sprintf("%s is gathered from corner %s, expected P%d", lf.name, cs, k))
 					}
+				} else if isVertex && lc.altered != "" {
+					fail(ob.Violation, lf.name+" is not a plain float32 copy of the corner position: it passes through "+lc.altered)
 				} else if len(lc.axes) == 0 {
 					fail(ob.Undecided, lf.name+": no component accessor on the data path; cannot tell which axis is stored")
 				} else if !lc.axes[lf.comp] {
@@ -1271,6 +1288,9 @@ func gather(a *anchors, r *rep, fn, write *ssa.Function) {
 						normPos = p
 						if !lc.normed {
 							normNormalised = false
+						}
+						if lc.normCall != nil {
+							normCall, normCtx = lc.normCall, lc.normCtx
 						}
 					}
 				}
@@ -1300,6 +1320,9 @@ func gather(a *anchors, r *rep, fn, write *ssa.Function) {
 		r.Undecide("NRM-1", key, normPos, "the mean of the corner normals does not pass through vector3.Normalized; normalisation by other means is not recognised")
 	default:
 		r.Hold("NRM-1", key, normPos, "Normal = Normalized(f(P1,P2,P3 of attribute "+a.nrmAttr+")) of the same triangle")
+		if normCall != nil {
+			meanDirection(a, r, e, name+"#facet-normal.direction", normPos, normCall, normCtx)
+		}
 	}
 }
 
@@ -1313,4 +1336,52 @@ func sameSet(x, y map[int]bool) bool {
 		}
 	}
 	return true
+}
+
+// valueChanging returns a description of the first operation on a data slice
+// that can change a coordinate value: float arithmetic, or a call other than
+// the gather accessors, conversions, component accessors and positional
+// constructors. Corner positions must reach the file (and come back) unchanged
+// up to float32 rounding.
+func (a *anchors) valueChanging(sl *sx.Slicer) string {
+	for _, v := range sl.Values() {
+		switch x := v.(type) {
+		case *ssa.BinOp:
+			if b, ok := x.Type().Underlying().(*types.Basic); ok && b.Info()&types.IsFloat != 0 {
+				return "float arithmetic (" + x.Op.String() + ")"
+			}
+		case *ssa.UnOp:
+			if b, ok := x.Type().Underlying().(*types.Basic); ok && b.Info()&types.IsFloat != 0 && x.Op.String() == "-" {
+				return "negation"
+			}
+		case *ssa.Call:
+			obj := ssaCallee(x)
+			if obj == nil {
+				if x.Call.StaticCallee() != nil && a.inline(x.Call.StaticCallee()) {
+					continue
+				}
+				return "a dynamic call"
+			}
+			if _, ok := sx.AxisGetter(obj); ok {
+				continue
+			}
+			if _, ok := sx.VecNew(obj); ok {
+				continue
+			}
+			if sx.VecMethod(obj, "ToFloat32") || sx.VecMethod(obj, "ToFloat64") {
+				continue
+			}
+			if a.cornerOrdinal(x) > 0 || a.isMeshMethod(x, "Tri") || a.isMeshMethod(x, "PrimitiveCount") {
+				continue
+			}
+			if callee := x.Call.StaticCallee(); callee != nil && a.inline(callee) {
+				continue // package-local helper: its body is on the slice as well
+			}
+			if obj.Pkg() != nil && obj.Pkg().Path() == "fmt" {
+				continue
+			}
+			return "call of " + obj.Name()
+		}
+	}
+	return ""
 }
